@@ -56,10 +56,15 @@ func plan(tier string, seed int64) []sup.Batch {
 	var bs []sup.Batch
 	bs = append(bs, chunkVar("direct", "direct", nDirect, nb)...)
 	bs = append(bs, chunkVar("script", "script", nScript, 4)...)
+	bs = append(bs, chunkVar("late", "late", nDirect/4, 4)...)
 	return bs
 }
 
 func runBatch(c *sup.Child, b sup.Batch) {
+	if b.Kind == "late" {
+		runLate(c, b)
+		return
+	}
 	viol := 0
 	for idx := b.From; idx < b.To; idx++ {
 		if viol >= 6 {
@@ -104,7 +109,7 @@ func main() {
 		ID:    "C14",
 		Level: "exploration",
 		Race:  true,
-		Rule: "seeded random task graphs: 2…8 top-level tasks (2…5 in scripts), wait list = subset (≤3) of earlier tasks, bodies of 1–3 commands (probe or nested pip:run with waits on earlier nested siblings), failing commands (return an error / append an error to the scope) at any position, now and then a submission whose wait list names no task, itself, a not yet submitted task or a refused task; " +
+		Rule: "seeded random task graphs: 2…8 top-level tasks (2…5 in scripts), wait list = subset (≤3) of earlier tasks, bodies of 1–3 commands (probe or nested pip:run with waits on earlier nested siblings), failing commands (return an error / append an error to the scope) at any position, now and then a submission whose wait list names no task, itself, a not yet submitted task or a refused task; late: a task submitted through the Runner service from inside a running body while TasksManager.Wait() is already in progress (own context, works a while, may fail) – Wait must return after its last event and report its failure; " +
 			"driven through PipRunner.Run from 1…4 goroutines (each submission in its own context, or all in one scope) and as terminal scripts (strict / non-strict, with pip:wait); prerequisites hold a probe until their dependants have been submitted; " +
 			"distinct = distinct programs (mode, wait lists, bodies); non-trivial = the program has a wait edge and at least one probe event was logged",
 		Assumptions: []string{
@@ -120,7 +125,7 @@ func main() {
 		RaceDecides: false,
 		Finish: func(t *sup.Totals) string {
 			need := []string{
-				"programs_separated", "programs_shared", "programs_script",
+				"programs_separated", "programs_shared", "programs_script", "late_programs",
 				"probe_events",
 				"wait_edges_checked_on_a_dependant_that_ran",
 				"tasks_with_a_failed_prerequisite_checked",
